@@ -89,6 +89,7 @@ func (b *BlockList) loadInitial() {
 	}
 
 	if _, err := os.Stat(b.cfg.BlockListDir); err == nil {
+		b.removeStaleTemps()
 		if err := b.readBlocklists(); err != nil {
 			zlog.Warn("Read local blocklists failed", "dir", b.cfg.BlockListDir, "error", err.Error())
 		}
@@ -237,6 +238,28 @@ func (b *BlockList) fetchBlocklist() {
 	wg.Wait()
 }
 
+// localTempPrefix is the name prefix of the temp files persist() creates
+// next to the local list (os.CreateTemp pattern "local.tmp.*").
+const localTempPrefix = "local.tmp."
+
+// removeStaleTemps deletes what a persist() interrupted before its rename
+// left behind. Such a file is a prefix of some past snapshot — possibly cut
+// in the middle of a line — and used to be parsed like any other list on
+// every later start: a cut line became a new, broader entry and entries
+// removed since came back. Runs from loadInitial only, before any API call
+// can have a persist in flight.
+func (b *BlockList) removeStaleTemps() {
+	entries, err := os.ReadDir(b.cfg.BlockListDir)
+	if err != nil {
+		return
+	}
+	for _, e := range entries {
+		if !e.IsDir() && strings.HasPrefix(e.Name(), localTempPrefix) {
+			_ = os.Remove(filepath.Join(b.cfg.BlockListDir, e.Name()))
+		}
+	}
+}
+
 func (b *BlockList) readBlocklists() error {
 	zlog.Info("Loading blocked domains...", "path", b.cfg.BlockListDir)
 
@@ -255,6 +278,12 @@ func (b *BlockList) readBlocklists() error {
 			return nil
 		}
 		if f == nil {
+			return nil
+		}
+		// A persist() temp file is not a list: it may be half written by
+		// a save that is running right now (refreshRemote re-reads the
+		// directory while the API is live).
+		if !f.IsDir() && strings.HasPrefix(f.Name(), localTempPrefix) {
 			return nil
 		}
 		if !f.IsDir() {
